@@ -20,7 +20,7 @@ type CodeRec struct {
 	Bytes       []int `json:"bytes"`
 	St          []int `json:"st"`
 	NConsts     int   `json:"nconsts"`
-	KNone       []int `json:"knone"`
+	KKind       []int `json:"kkind"`
 	NNames      int   `json:"nnames"`
 	NVars       int   `json:"nvars"`
 	NCells      int   `json:"ncells"`
@@ -74,12 +74,13 @@ type obsKey struct {
 
 // Recorder is the observer behind vm.VerifInstr.
 type Recorder struct {
-	mu      sync.Mutex
-	table   *Table
-	maxEv   int // events kept per frame
-	perCode int // traces kept per code object
-	budget  int64 // instructions allowed for the current program (watchdog)
-	used    int64
+	mu       sync.Mutex
+	table    *Table
+	maxEv    int   // events kept per frame
+	perCode  int   // traces kept per code object
+	maxTotal int64 // events handed to TLC in all
+	budget   int64 // instructions allowed for the current program (watchdog)
+	used     int64
 
 	live     map[*py.Frame]*Trace
 	ignored  map[*py.Frame]bool
@@ -87,8 +88,9 @@ type Recorder struct {
 	seen     map[[20]byte]bool
 	nPerCode map[int]int
 	traces   []*Trace
-	obs      map[obsKey]struct{}
-	needEmit map[int]bool
+	obs      map[obsKey]struct{} // every (code, pc, stack depth, block depth) the VM was seen in
+	covered  map[obsKey]struct{} // those that occur in a trace handed to TLC
+	needEmit map[int]bool        // code objects with observations outside the validated traces
 	curSrc   *Source
 
 	frames, events, tracedEvents int64
@@ -99,9 +101,9 @@ type Recorder struct {
 
 type budgetExceeded struct{}
 
-func newRecorder(t *Table, maxEv, perCode int) *Recorder {
-	return &Recorder{table: t, maxEv: maxEv, perCode: perCode, live: map[*py.Frame]*Trace{}, ignored: map[*py.Frame]bool{},
-		finished: map[*py.Frame]bool{}, seen: map[[20]byte]bool{}, nPerCode: map[int]int{}, obs: map[obsKey]struct{}{}, needEmit: map[int]bool{}}
+func newRecorder(t *Table, maxEv, perCode int, maxTotal int64) *Recorder {
+	return &Recorder{table: t, maxEv: maxEv, perCode: perCode, maxTotal: maxTotal, live: map[*py.Frame]*Trace{}, ignored: map[*py.Frame]bool{},
+		finished: map[*py.Frame]bool{}, seen: map[[20]byte]bool{}, nPerCode: map[int]int{}, obs: map[obsKey]struct{}{}, covered: map[obsKey]struct{}{}, needEmit: map[int]bool{}}
 }
 
 // tag abstracts a value of the real stack to what the specification can be compared with.
@@ -185,7 +187,6 @@ func (r *Recorder) hook(f *py.Frame, exit bool, why int) {
 	} else if !t.cut {
 		t.cut = true
 		r.cutFrames++
-		r.needEmit[t.gcid] = true
 	}
 	if r.budget > 0 && r.used > r.budget {
 		r.budgetHit++
@@ -209,13 +210,15 @@ func (r *Recorder) finish(f *py.Frame, t *Trace) {
 		return
 	}
 	r.seen[k] = true
-	if r.nPerCode[t.gcid] >= r.perCode {
-		r.needEmit[t.gcid] = true // its observations are only covered by the reachable-set comparison
-		return
+	if r.nPerCode[t.gcid] >= r.perCode || r.tracedEvents+int64(len(t.Ev)) > r.maxTotal {
+		return // its observations are covered by the reachable-set comparison (see uncovered)
 	}
 	r.nPerCode[t.gcid]++
 	r.tracedEvents += int64(len(t.Ev))
 	r.traces = append(r.traces, t)
+	for _, e := range t.Ev {
+		r.covered[obsKey{int32(t.gcid), int32(e.Pc), int32(len(e.Tags)), int32(len(e.Blk))}] = struct{}{}
+	}
 }
 
 // endProgram closes the traces of frames that never finished (suspended generators, frames
@@ -231,4 +234,17 @@ func (r *Recorder) endProgram() {
 	}
 	r.live = map[*py.Frame]*Trace{}
 	r.ignored = map[*py.Frame]bool{}
+}
+
+// uncovered returns the observations no validated trace contains (frames cut at maxEv, traces beyond
+// perCode); they are compared with the reachable set TLC exports for their code objects.
+func (r *Recorder) uncovered() []obsKey {
+	var out []obsKey
+	for k := range r.obs {
+		if _, ok := r.covered[k]; !ok {
+			out = append(out, k)
+			r.needEmit[int(k.cid)] = true
+		}
+	}
+	return out
 }
